@@ -203,7 +203,8 @@ def _ray_triangle(
   dif2 = pnt - v2
   nrm = wp.cross(dif0, dif1)  # normal to triangle plane
   denom = wp.dot(vec, nrm)
-  if wp.abs(denom) < MJ_MINVAL:
+  # ray in the plane of the triangle: denom is rounding noise relative to |vec| |nrm|
+  if wp.abs(denom) < wp.max(MJ_MINVAL, 1.0e-6 * wp.length(vec) * wp.length(nrm)):
     return -1.0, wp.vec3()
 
   dist = -wp.dot(dif2, nrm) / denom
